@@ -14,7 +14,7 @@ from .. import spec as S
 from .c05 import menu_args, menu_from_args
 
 PROP = "C11"
-QKINDS = ["lambda", "def", "str", "named", "cached", "named_cached", "lambda_default"]
+QKINDS = ["lambda", "def", "str", "named", "cached", "named_cached", "lambda_default", "named_def", "cached_named_def"]
 
 
 def with_qk(spec, qk):
@@ -51,6 +51,8 @@ def continuations(spec, menu, fillable):
         evs.append(("fill-bare", menu["events"][1 % len(menu["events"])]))
         evs.append(("fill-attr", menu["events"][0]))
     evs.append(("iadd", None))
+    if not has_transform(spec):
+        evs.append(("mul", 0.5))  # (whatever can be done with the original can be done with the clone)
     out = [()]
     out += [(e,) for e in evs]
     out += list(itertools.product(evs, repeat=2))
@@ -68,6 +70,9 @@ def _all_string_quantities(spec):
 
 def apply_cont(spec, obj, evs_ref, step, menu):
     k, e = step
+    if k == "mul":
+        evs_ref[:] = R.scale_events(evs_ref, e)
+        return obj * e
     if k in ("fill-bare", "fill-attr"):
         (field,) = S.fields(spec)
         if k == "fill-bare":
@@ -132,7 +137,7 @@ def check_member(spec, build_member, evs, fillable, args, menu, tier):
     if tier == "quick":
         conts = [c_ for c_ in conts if len(c_) <= 1] + [c_ for c_ in conts if len(c_) == 2][:6]
     for cont in conts:
-        ca = dict(args, cont=[[k, core.show_evs([e])[0] if e else None] for k, e in cont])
+        ca = dict(args, cont=[[k, (e if k == "mul" else core.show_evs([e])[0]) if e else None] for k, e in cont])
         try:
             h = build_member()
             c = pickle.loads(pickle.dumps(h))
